@@ -238,6 +238,8 @@ class XCubeMatchingDecoder(BaseDecoder):
     def decode(self, syndrome: np.ndarray, **kwargs) -> np.ndarray:
         """Get X corrections given code and measured syndrome."""
 
+        syndrome = np.array(syndrome)
+
         # Initialize correction as full bsf.
         possible_correction = {'x': np.zeros(2*self.code.n, dtype=np.uint),
                                'y': np.zeros(2*self.code.n, dtype=np.uint),
